@@ -59,9 +59,9 @@ func VerifC11Bypass() {
 	verifAssert(stats.Counter("unit=Err.type=invalid").Count() == inv0, "aggregate-not-validated")
 	verifAssert(aggIn.Count() == a0, "aggregate-not-aggregated-again")
 	if verifIsSymbolic() {
-		verifAssert(verifCalledSince(mark, "rewriter.RW).Do") == 0, "no-rewriter-call")
-		verifAssert(verifCalledSince(mark, "Aggregator).AddMaybe") == 0, "no-addmaybe-call")
-		verifAssert(verifCalledSince(mark, "carbon20.ValidatePacket") == 0, "no-validate-call")
+		verifAssert(verifCalledSince(mark, "rewriter.RW).Do") == 0, "structural/no-rewriter-call")
+		verifAssert(verifCalledSince(mark, "Aggregator).AddMaybe") == 0, "structural/no-addmaybe-call")
+		verifAssert(verifCalledSince(mark, "carbon20.ValidatePacket") == 0, "structural/no-validate-call")
 	}
 	verifCover("end")
 }
